@@ -579,11 +579,50 @@ func runC13Inner(c *C13Case) (res c13Result) { //nolint:cyclop,gocyclo,maintidx
 			if readerGone {
 				continue
 			}
+			if op.N == -1 {
+				// a deadline centuries away (some callers use one for "never"): no read may time out
+				before := 0
+				rmu.Lock()
+				before = len(got)
+				rmu.Unlock()
+				_ = relay.SetReadDeadline(time.Now().AddDate(300, 0, 0))
+				// a datagram arrives, so that the reader comes round to ReadFrom again
+				seq++
+				pa := peer13(0)
+				payload := []byte(fmt.Sprintf("far%05d", seq))
+				var id [12]byte
+				binary.BigEndian.PutUint32(id[0:4], uint32(seq)) //nolint:gosec
+				dm := &ref.Msg{Method: ref.MethodData, Class: ref.ClassIndication, TxID: id}
+				dm.Add(ref.AttrXORPeerAddress, ref.XorAddr(pa.IP, pa.Port, id))
+				dm.Add(ref.AttrData, payload)
+				_, _ = ssock.WriteTo(dm.Encode(), srv.client)
+				relayed[pa.String()] = append(relayed[pa.String()], payload)
+				queued++
+				time.Sleep(time.Second)
+				synctest.Wait()
+				rmu.Lock()
+				for _, g := range got[before:] {
+					var ne net.Error
+					if g.err != nil && errors.As(g.err, &ne) && ne.Timeout() {
+						fail("far-deadline-times-out", "%s: ReadFrom timed out although its deadline lies 300 years ahead", ctx)
+					}
+				}
+				rmu.Unlock()
+				_ = relay.SetReadDeadline(time.Time{})
+
+				continue
+			}
 			deadlineAt = time.Now().Add(time.Duration(op.N) * time.Millisecond)
+			if op.N == -2 {
+				deadlineAt = time.Unix(0, 0) // long past (and the zero of another clock)
+			}
 			readAgain.Store(int64(op.Again))
 			_ = relay.SetReadDeadline(deadlineAt)
-			time.Sleep(time.Duration(op.N)*time.Millisecond + 500*time.Microsecond)
+			time.Sleep(time.Duration(max(op.N, 0))*time.Millisecond + 500*time.Microsecond)
 			synctest.Wait()
+			if op.N == -2 {
+				deadlineAt = time.Now().Add(-500 * time.Microsecond) // (for the bookkeeping below: the timeouts come at once)
+			}
 			rmu.Lock()
 			okTimeout := false
 			timeouts := 0
@@ -777,7 +816,7 @@ func genC13(rt *rapid.T) *C13Case {
 			op.Empty = rapid.IntRange(0, 4).Draw(rt, "empty") == 0
 			op.Cookie = rapid.IntRange(0, 4).Draw(rt, "cookie") == 0
 		case "deadline":
-			op.N = rapid.SampledFrom([]int{1, 50, 1000, 30000}).Draw(rt, "ms")
+			op.N = rapid.SampledFrom([]int{1, 50, 1000, 30000, -1, -2}).Draw(rt, "ms")
 			op.Again = rapid.SampledFrom([]int{0, 0, 1, 3}).Draw(rt, "again")
 		case "sleep":
 			op.N = rapid.SampledFrom([]int{1, 5, 31, 121, 301, 601}).Draw(rt, "secs")
